@@ -3,11 +3,11 @@ package main
 func init() {
 	register(&propDef{
 		ID: "C13", Engine: "disksim", Pkg: "./engines/disksim", Level: "fault_enumeration",
-		Runs:   map[string]int{"quick": 2400, "thorough": 60000},
-		MaxSec: map[string]float64{"quick": 150, "thorough": 2400},
-		Rule: "one run = one tape-drawn workload (payload class/length, partition into Write calls, codec {stub,zlib,lz4,zstd}, CChunkSize|DChunkSize, CPageSize, index location, temp-file flavour, 0-3 resources) executed fault-free against an independent spec validator + independent decoder + rac.Reader; in 'faults' mode the same workload is then re-executed once per (underlying storage operation, applicable fault kind) - every single-fault position - plus 8 drawn double faults. distinct = distinct workload fingerprints (config, payload hash, partition); non-trivial = at least 2 Write calls or at least one fault point enumerated",
-		Real: []string{"lib/rac Writer, ChunkWriter, Reader, ChunkReader", "lib/raczlib, lib/raclz4, lib/raczstd (cgo), lib/zlibcut, lib/flatecut, lib/internal/racdict"},
-		Stub: []string{"io.Writer and TempFile (simulated disk with numbered fault points)", "stub identity codec 'verifID' (long codec, supports Cut and secondary+tertiary resources) in about half of the runs"},
+		Runs:        map[string]int{"quick": 2400, "thorough": 60000},
+		MaxSec:      map[string]float64{"quick": 150, "thorough": 2400},
+		Rule:        "one run = one tape-drawn workload (payload class/length, partition into Write calls, codec {stub,zlib,lz4,zstd}, CChunkSize|DChunkSize, CPageSize, index location, temp-file flavour, 0-3 resources) executed fault-free against an independent spec validator + independent decoder + rac.Reader; in 'faults' mode the same workload is then re-executed once per (underlying storage operation, applicable fault kind) - every single-fault position - plus 8 drawn double faults. distinct = distinct workload fingerprints (config, payload hash, partition); non-trivial = at least 2 Write calls or at least one fault point enumerated",
+		Real:        []string{"lib/rac Writer, ChunkWriter, Reader, ChunkReader", "lib/raczlib, lib/raclz4, lib/raczstd (cgo), lib/zlibcut, lib/flatecut, lib/internal/racdict"},
+		Stub:        []string{"io.Writer and TempFile (simulated disk with numbered fault points)", "stub identity codec 'verifID' (long codec, supports Cut and secondary+tertiary resources) in about half of the runs"},
 		Assumptions: []string{"storage faults respect the io.Writer/io.Reader contracts (no silent short write)", "the structural validator is an independent reading of doc/spec/rac-spec.md"},
 	})
 }
@@ -15,11 +15,11 @@ func init() {
 func init() {
 	register(&propDef{
 		ID: "C15", Engine: "disksim", Pkg: "./engines/disksim", Level: "exploration",
-		Runs:   map[string]int{"quick": 60000, "thorough": 3000000},
-		MaxSec: map[string]float64{"quick": 120, "thorough": 2400},
-		Rule: "one run = one byte string presented as a RAC file: a valid file written by the real rac.Writer (stub or zlib codec) or a node graph assembled directly from the spec (chains of depth 1..120, with or without a cycle), damaged before open by 0-3 mutations (13 structured index-node mutations with the checksum repaired 7 times in 8; bit/byte flips, truncation, zeroed span, duplicated span, torn tail; claimed size != real size), then opened, walked, seeked and decoded through ChunkReader and rac.Reader on an operation-counting disk. distinct = distinct (file bytes, claimed size) hashes; non-trivial = at least one mutation or a hand-assembled graph",
-		Real: []string{"lib/rac ChunkReader, Reader; lib/readerat; lib/raczlib; lib/internal/racdict"},
-		Stub: []string{"io.ReadSeeker / io.ReaderAt (op-counting immutable simulated disk; budget exhaustion fails the operation)", "stub codec reader for the 'verifID' long codec"},
+		Runs:        map[string]int{"quick": 60000, "thorough": 3000000},
+		MaxSec:      map[string]float64{"quick": 120, "thorough": 2400},
+		Rule:        "one run = one byte string presented as a RAC file: a valid file written by the real rac.Writer (stub or zlib codec) or a node graph assembled directly from the spec (chains of depth 1..120, with or without a cycle), damaged before open by 0-3 mutations (13 structured index-node mutations with the checksum repaired 7 times in 8; bit/byte flips, truncation, zeroed span, duplicated span, torn tail; claimed size != real size), then opened, walked, seeked and decoded through ChunkReader and rac.Reader on an operation-counting disk. distinct = distinct (file bytes, claimed size) hashes; non-trivial = at least one mutation or a hand-assembled graph",
+		Real:        []string{"lib/rac ChunkReader, Reader; lib/readerat; lib/raczlib; lib/internal/racdict"},
+		Stub:        []string{"io.ReadSeeker / io.ReaderAt (op-counting immutable simulated disk; budget exhaustion fails the operation)", "stub codec reader for the 'verifID' long codec"},
 		Assumptions: []string{"the stored bytes do not change while a reader is open", "work bound: 16*(CompressedSize/32)+64 disk operations per ChunkReader call, which every spec-legal structure meets (no node repeats on a root-to-leaf path under the anti-loop rule)"},
 	})
 }
